@@ -75,3 +75,40 @@ package storage
 //@   ensures writable [C12,C16]: err == nil ==> result0.dataWriter != nil && objinv(result0.dataWriter) && typeis(result0.idx, "*v2/index.InsertionIndex")
 //@   ensures header_layout [C05]: err == nil ==> result0.header.DataOffset == wrap_u64(51 + result0.opts.DataPadding)
 //@   ensures payload_origin [C01,C05]: err == nil ==> wbase(result0.dataWriter) == ite(result0.opts.WriteAsCarV1, 0, wrap_s64(result0.header.DataOffset))
+
+// Readers of the storage front-end (C07, C08): the lookup is store.FindCid over the store's own reader, index and
+// options, under the read lock; identity CIDs are answered without a lookup only when they are not stored.
+
+//@ func (*StorageCar).Has
+//@   requires unlocked [C08]: held(sc.mu) == 0
+//@   let keyc, cerr := call[cid.Cast#0]
+//@   let _, idok, iderr := call[store.IsIdentity#0]
+//@   let _, _, size, ferr := call[store.FindCid#0]
+//@   let has, herr := call[store.Has#0]
+//@   call[store.Has#0] assert read_locked [C08]: held(sc.mu) == 1
+//@   call[store.Has#0] assert open [C04]: !sc.closed
+//@   call[store.Has#0] assert options [C04,C07]: ref(arg0) == ref(sc.idx) && arg1 == keyCid && arg2 == sc.opts.MaxIndexCidSize && arg3 == sc.opts.StoreIdentityCIDs && arg4 == sc.opts.BlockstoreAllowDuplicatePuts && arg5 == sc.opts.BlockstoreUseWholeCIDs
+//@   call[store.FindCid#0] assert args [C07]: ref(arg0) == ref(sc.reader) && ref(arg1) == ref(sc.idx) && arg2 == keyCid && arg3 == sc.opts.BlockstoreUseWholeCIDs && arg4 == sc.opts.ZeroLengthSectionAsEOF && arg5 == sc.opts.MaxAllowedSectionSize && arg6 == false
+//@   call[store.FindCid#0] assert read_locked [C08]: held(sc.mu) == 1
+//@   call[store.FindCid#0] assert open [C04]: !sc.closed
+//@   call[store.FindCid#0] assert identity_not_short_cut_when_stored [C04,C07]: sc.opts.StoreIdentityCIDs || (iderr == nil && mhtype(keyCid) != 0)
+//@   ensures closed_err [C04]: cerr == nil && old(sc.closed) ==> err == ErrClosed && !result0
+//@   ensures lookup [C07]: ferr == nil && err == nil && !(typeis(sc.idx, "*v2/index.InsertionIndex") && sc.writer != nil) && (sc.opts.StoreIdentityCIDs || mhtype(keyc) != 0) ==> result0 == (size > -1)
+//@   ensures released [C08]: held(sc.mu) == 0
+
+//@ func (*StorageCar).GetStream
+//@   requires unlocked [C08]: held(sc.mu) == 0
+//@   let keyc, cerr := call[cid.Cast#0]
+//@   let digest, idok, iderr := call[store.IsIdentity#0]
+//@   let _, offset, size, ferr := call[store.FindCid#0]
+//@   call[store.FindCid#0] assert args [C07]: ref(arg0) == ref(sc.reader) && ref(arg1) == ref(sc.idx) && arg2 == keyCid && arg3 == sc.opts.BlockstoreUseWholeCIDs && arg4 == sc.opts.ZeroLengthSectionAsEOF && arg5 == sc.opts.MaxAllowedSectionSize && arg6 == false
+//@   call[store.FindCid#0] assert read_locked [C08]: held(sc.mu) == 1
+//@   call[store.FindCid#0] assert open [C04]: !sc.closed
+//@   call[store.FindCid#0] assert identity_not_short_cut_when_stored [C04,C07]: sc.opts.StoreIdentityCIDs || (iderr == nil && mhtype(keyCid) != 0)
+//@   call[io.NewSectionReader#0] assert window_is_the_found_section [C07]: ref(arg0) == ref(sc.reader) && arg1 == offset && arg2 == wrap_s64(size) && ferr == nil
+//@   ensures closed_err [C04]: sc.reader != nil && cerr == nil && old(sc.closed) && (sc.opts.StoreIdentityCIDs || (iderr == nil && mhtype(keyc) != 0)) ==> err == ErrClosed && result0 == nil
+//@   ensures released [C08]: held(sc.mu) == 0
+
+//@ func (*StorageCar).Get
+//@   requires unlocked [C08]: held(sc.mu) == 0
+//@   ensures released [C08]: held(sc.mu) == 0
